@@ -136,6 +136,45 @@ def all_variant_names(p, out=None):
     return out
 
 
+def is_row_view(y):
+    return y.get("k") == "mcall" and y["name"] in ("iter", "iter_mut", "keys", "values", "into_iter") and any(table_api(n_) for n_ in hir_callee(y))
+
+
+def lockstep_walk(nodes):
+    """a hand-written zip: a loop that advances two row iterators of the tables once per round - a `for` over one table's
+    rows (or a `loop` / `while let`) whose body calls Iterator::next on a row iterator that was created *outside* the loop
+    (one created inside would restart every round: a nested scan, not a pairwise walk). Returns the loop node or None."""
+    iters = {}      # local id -> the let's init expression
+    for x in nodes:
+        if x.get("k") == "block":
+            for st in x["block"]["stmts"]:
+                if st["k"] == "let" and st.get("init") is not None and st["pat"].get("k") == "bind" and any(is_row_view(z) for z in hir_walk(st["init"])):
+                    iters[st["pat"]["id"]] = st["init"]
+
+    def advanced(loop):
+        inside = list(hir_walk(loop))
+        ids = set(id(z) for z in inside)
+        out = set()
+        for z in inside:
+            if z.get("k") in ("mcall", "call") and any(n_.endswith("Iterator::next") for n_ in hir_callee(z)):
+                recv = z["recv"] if z["k"] == "mcall" else (z["args"][0] if z["args"] else None)
+                r = hir_strip(recv) if recv is not None else None
+                while r is not None and r.get("k") == "addr_of":
+                    r = hir_strip(r["e"])
+                lid = hir_local_id(r) if r is not None else None
+                if lid in iters and id(iters[lid]) not in ids:
+                    out.add(lid)
+        return out
+    for x in nodes:
+        if x.get("k") == "match" and x.get("source") == "ForLoopDesugar" and any(is_row_view(z) for z in hir_walk(x["scrut"])):
+            for lp in hir_walk(x):
+                if lp.get("k") == "loop" and advanced(lp):
+                    return lp
+        if x.get("k") == "loop" and len(advanced(x)) >= 2:
+            return x
+    return None
+
+
 def rule_t(F):
     """tables: equality and hash treat the row order alike. Eq that compares the rows position by position (zip of the two
     iterators) is order-sensitive, eq that looks each row of one table up in the other is order-insensitive; a Hash that
@@ -165,10 +204,11 @@ def rule_t(F):
             and any(n.startswith("std::iter::Iterator::") for n in hir_callee(y))]
     lookups = [y for y in eq_nodes if y.get("k") == "mcall" and y["name"] in ("get", "get_mut", "contains", "contains_key")
                and any("CaoLangTable::" in n or "CaoHashMap::" in n for n in hir_callee(y))]
+    lockstep = lockstep_walk(eq_nodes)
     if lookups:
         eq_kind = "order-insensitive (rows of one table are looked up in the other, line %s)" % lookups[0].get("ln")
         eq_ordered = False
-    elif zips:
+    elif zips or lockstep:
         eq_kind = "order-sensitive (rows compared position by position)"
         eq_ordered = True
     else:
